@@ -95,19 +95,20 @@ structure Vest where
   stop : Int := 0
   deriving Repr, Inhabited
 
+/-- the vesting scalar applied to the amount: `s.Mul(Amount).TruncateInt()` with
+    `s = NewDec(x).Quo(NewDec(y))` (both roundings are the SDK's half-even ones) -/
+def vestedTotal (v : Vest) (now : Int) : Int :=
+  let s := (Dec.ofInt (now - v.start)).quo (Dec.ofInt (v.stop - v.start))
+  (s.mul (Dec.ofInt v.amount)).truncateInt
+
 /-- `IROVestingPlan.VestedAmt(currTime)`; `none` = panic (division by zero) -/
 def vestedAmt (v : Vest) (now : Int) : Option Int :=
   let unclaimed := v.amount - v.claimed
   if unclaimed ≤ 0 then some 0
   else if now < v.start then some 0
   else if v.stop < now then some unclaimed
-  else
-    let x := now - v.start
-    let y := v.stop - v.start
-    if y = 0 then none else
-    let s := (Dec.ofInt x).quo (Dec.ofInt y)
-    let vested := (s.mul (Dec.ofInt v.amount)).truncateInt
-    some (vested - v.claimed)
+  else if v.stop - v.start = 0 then none
+  else some (vestedTotal v now - v.claimed)
 
 structure Plan where
   L : Nat
